@@ -52,6 +52,11 @@ partial def spOfJson (j : Json) : Except String Sp := do
   | "union" => pure (.union (← sub "x") (← sub "y"))
   | "anyOf" => pure (.anyOf (← sub "x") (← sub "y"))
   | "pipe" => pure (.pipe (← sub "x") (← sub "y"))
+  | "scls" => pure (.scls (← declOfJson (← j.getObjVal? "d")) (← (← j.getObjVal? "len").getNat?))
+  | "tup585" => pure (.tup585 (← sub "x") (← sub "y"))
+  | "tupTyping" => pure (.tupTyping (← sub "x") (← sub "y"))
+  | "tupSub" => pure (.tupSub (← sub "x") (← sub "y"))
+  | "tupCall" => pure (.tupCall (← sub "x") (← sub "y"))
   | s => throw s!"spelling {s}"
 
 def dfltOfJson (j : Json) : Except String DefaultSp := do
